@@ -17,6 +17,8 @@ import r_scheme
 import r_wire
 import r_ladder
 import r_repstate
+import r_shape
+import r_family
 import witness
 
 
@@ -215,6 +217,56 @@ def repstate(facts, rep, entries, floor):
 
 def _ops(facts, p, ty):
     return [name for _, name, t in r_guard.operand_params(facts, p) if r_guard.strip_ty(t) == ty]
+
+
+def c02(facts, tier):
+    rep = Report("C02", tier, facts,
+                 "R-SHAPE(count): at every polysmallmod::*_ps call the polynomial count handed over is the count of the "
+                 "buffer it is applied to (same accessor on the same operand, through clone chains), never another "
+                 "operand's; R-FAMILY: every _ps/_p wrapper delegates to its own operation class one layout level down "
+                 "with stride = slice width, the NTT wrappers reach the transform of their direction/laziness; "
+                 "R-METAFLOW(table): the BGV correction factor recorded by multiply / square / mod-switch is the modular "
+                 "product the operation implies; R-REPSTATE on the BFV and BGV projections of the evaluator's public "
+                 "operations (no mixed-representation arithmetic, transforms and RNS routines in their own domain, "
+                 "results leave canonical and with data matching their representation flag).",
+                 "exactness of the BEHZ multiplication steps, noise growth, the arithmetic of "
+                 "balance_correction_factors, that decryption returns the ring product.")
+    files = None if tier == "thorough" else {"src/evaluator.rs", "src/encryptor.rs", "src/key.rs", "src/util/scaling_variant.rs"}
+    n = r_shape.run_count(facts, rep, files)
+    rep.floor("R-SHAPE(count)", "(call, buffer) pairs at *_ps call sites", n, 20)
+    n = r_family.run_poly(facts, rep)
+    rep.floor("R-FAMILY(poly)", "_ps/_p wrappers", n, 50)
+    r_family.run_ntt(facts, rep)
+    M = r_meta
+    fam = r_forms.families(facts)
+    me = meta_engines(facts, ("BGV", "BFV"))
+    rep.rule("R-METAFLOW(table)", "BGV: multiply records cf = multiply_u64_mod(cf(a), cf(b), t), square cf(a)^2 likewise; "
+             "BFV: the correction factor and scale are carried unchanged")
+    rows = []
+    for p in _forms(fam, "multiply"):
+        rows.append((p, "cf", lambda y: M.is_call(y, "multiply_u64_mod", M.S("cf", 0), M.S("cf", 1)), "multiply_u64_mod(cf(a), cf(b), t)"))
+    for p in _forms(fam, "square"):
+        rows.append((p, "cf", lambda y: M.is_call(y, "multiply_u64_mod", M.S("cf", 0)) and
+                     sum(1 for z in y[2:] if z == M.S("cf", 0)) == 2, "multiply_u64_mod(cf(a), cf(a), t)"))
+    for p in _forms(fam, "negate", "multiply_plain", "relinearize", "transform_to_ntt", "transform_from_ntt", "rotate_rows"):
+        rows.append((p, "cf", lambda y: y == M.S("cf", 0), "cf(a) unchanged"))
+    M.check_table(me["BGV"][0], me["BGV"][1], rep, "BGV", rows)
+    rows_bfv = []
+    for p in _forms(fam, "multiply", "square", "negate", "multiply_plain", "relinearize"):
+        rows_bfv.append((p, "cf", lambda y: y == M.S("cf", 0), "cf(a) unchanged"))
+        rows_bfv.append((p, "scale", lambda y: y == M.S("scale", 0), "scale(a) unchanged"))
+    M.check_table(me["BFV"][0], me["BFV"][1], rep, "BFV", rows_bfv)
+    rep.floor("R-METAFLOW(table)", "correction-factor rows", len(rows) + len(rows_bfv), 50)
+    ents = facts.methods_of("evaluator::Evaluator", pub_only=True)
+    n = 0
+    for sc in ("BFV", "BGV"):
+        pf = project.ProjFacts(facts, sc)
+        before = len(rep.instances)
+        n += r_repstate.run(pf, rep, ents)
+        for i in rep.instances[before:]:
+            i["key"] = i["key"].replace("R-REPSTATE/", "R-REPSTATE/%s/" % sc, 1)
+    rep.floor("R-REPSTATE", "(entry, scheme, assumption) analyses", n, 250)
+    return rep
 
 
 def c03_rows(facts):
@@ -467,6 +519,7 @@ def c13(facts, tier):
 
 
 CHECKS = {
+    "C02": c02,
     "C13": c13,
     "C14": c14,
     "C18": c18,
